@@ -167,6 +167,9 @@ def check_case(case):
 
     cols = ["chromosome", "start", "end", "gene", "log2", "depth", "weight"]
     df = pd.DataFrame([tuple(r) for r in rows], columns=cols)
+    from vk import gen
+
+    df = gen.relabel(df, gen.spec_for(case))
     cnarr = CopyNumArray(df.copy(), {"sample_id": "s"})
     is_hmm = case["method"].startswith("hmm")
 
